@@ -176,7 +176,7 @@ def build_audit_multi(case):
     return audit, contests
 
 
-def run_audit(case, only=None):
+def run_audit(case, only=None, spy=None):
     """the real Audit.find_sample_size on the case's contests (or on the single contest `only`)"""
     audit, contests = build_audit_multi(case)
     if only is not None:
@@ -184,6 +184,13 @@ def run_audit(case, only=None):
     cvrs = None if case["cvrs"] is None else build_cards(case["cvrs"])
     mvr = None if case["mvr"] is None else build_cards(case["mvr"])
     cvr = None if case.get("cvr") is None else build_cards(case["cvr"])
+    if spy is not None and case.get("warm"):
+        def earlier(r1, r2):
+            a2, _ = build_audit_multi(case)
+            a2.error_rate_1, a2.error_rate_2 = r1, r2
+            a2.find_sample_size(contests, cvrs=None if case["cvrs"] is None else build_cards(case["cvrs"]),
+                                mvr_sample=None, cvr_sample=None)
+        _warm(case, spy, contests=contests, call=earlier)
     tot = audit.find_sample_size(contests, cvrs=cvrs, mvr_sample=mvr, cvr_sample=cvr)
     return {cid: int(con.sample_size) for cid, con in contests.items()}, float(tot)
 
@@ -206,6 +213,30 @@ def build_cvrs(votes, sampled=False):
 # ---------------------------------------------------------------------------------------------
 # implementation
 
+def _warm(case, spy, contests=None, assertion=None, audit=None, call=None):
+    """`case["warm"]`: the objects are not fresh -- they carry the estimates of an earlier planning step.
+    {"attr": k}: every Contest / Assertion has sample_size = k (as the constructors and from_dict accept it, e.g. when an
+    audit is resumed from its log); {"call": {...}}: the same entry point was called before on the same objects with other
+    assumed error rates (and no audited sample).  An estimate is a function of the current call's arguments, so neither may show in the result."""
+    w = case.get("warm")
+    if not w:
+        return
+    if w.get("attr") is not None:
+        for con in (contests or {}).values():
+            con.sample_size = w["attr"]
+            for a in con.assertions.values():
+                a.sample_size = w["attr"]
+        if assertion is not None:
+            assertion.sample_size = w["attr"]
+            assertion.contest.sample_size = w["attr"]
+    if w.get("call") is not None and call is not None:
+        try:
+            call(flt(w["call"]["rate_1"]), flt(w["call"]["rate_2"]))
+        except Exception:  # noqa: the earlier step may fail; the observed call is what counts
+            pass
+    spy.calls.clear()
+
+
 def observe(case):
     """run the real code under the spy; returns (result dict, recorded calls)"""
     op = case["op"]
@@ -221,6 +252,8 @@ def observe(case):
             elif op == "find":
                 a = build_assertion(case["asn"])
                 data = None if case["data"] is None else np.array([flt(v) for v in case["data"]], dtype=float)
+                _warm(case, spy, assertion=a, call=lambda r1, r2: a.find_sample_size(
+                    data=None, prefix=False, rate_1=r1, rate_2=r2, reps=None, quantile=0.5, seed=case["seed"]))
                 n = a.find_sample_size(data=data, prefix=case["prefix"], rate_1=flt(case["rate_1"]),
                                        rate_2=flt(case["rate_2"]), reps=case["reps"],
                                        quantile=flt(case["quantile"]), seed=case["seed"])
@@ -235,6 +268,13 @@ def observe(case):
                 audit = build_audit(case)
                 mvr = None if case["mvr"] is None else build_cvrs(case["mvr"])
                 cvr = None if case.get("cvr") is None else build_cvrs(case["cvr"])
+
+                def earlier(r1, r2, con=con, case=case):
+                    a2 = build_audit(case)
+                    a2.error_rate_1, a2.error_rate_2 = r1, r2
+                    con.find_sample_size(a2, mvr_sample=None,
+                                         cvr_sample=cvr if case["contest"]["audit_type"] == "ONEAUDIT" else None)
+                _warm(case, spy, contests={"c": con}, call=earlier)
                 n = con.find_sample_size(audit, mvr_sample=mvr, cvr_sample=cvr)
                 res = {"st": "ok", "n": int(n), "attr": int(con.sample_size)}
             elif op == "audit_contest":
@@ -243,10 +283,16 @@ def observe(case):
                 mvr = None if case["mvr"] is None else build_cvrs(case["mvr"])
                 cvr = None if case.get("cvr") is None else build_cvrs(case["cvr"])
                 cvrs = build_cvrs(case["cvrs"])
+
+                def earlier(r1, r2, con=con, case=case):
+                    a2 = build_audit(case)
+                    a2.error_rate_1, a2.error_rate_2 = r1, r2
+                    a2.find_sample_size({"c": con}, cvrs=build_cvrs(case["cvrs"]), mvr_sample=None, cvr_sample=None)
+                _warm(case, spy, contests={"c": con}, call=earlier)
                 tot = audit.find_sample_size({"c": con}, cvrs=cvrs, mvr_sample=mvr, cvr_sample=cvr)
                 res = {"st": "ok", "n": int(con.sample_size), "total": float(tot)}
             elif op == "audit":
-                sizes, tot = run_audit(case)
+                sizes, tot = run_audit(case, spy=spy)
                 res = {"st": "ok", "sizes": [sizes[c["id"]] for c in case["contests"]], "total": tot}
             elif op == "raire":
                 from shangrla.raire.sample_estimator import sample_size
@@ -968,21 +1014,34 @@ def corpus():
     ]
 
 
+def with_warm(rng, case):
+    """in a third of the cases the objects carry an earlier planning step (see `_warm`)"""
+    if rng.chance(0.35):
+        w = {}
+        if rng.chance(0.6):
+            w["attr"] = rng.choice([1, 3, 10 ** 6, rng.randint(1, 80)])
+        if not w or rng.chance(0.5):
+            w["call"] = {"rate_1": S(rng.choice([F(1, 20), F(1, 10), F(1, 4), F(1, 1000)])),
+                         "rate_2": S(rng.choice([F(0), F(1, 100), F(1, 10)]))}
+        case["warm"] = w
+    return case
+
+
 def gen(rng, n, tier):
     for _ in range(n):
         r = rng.random()
         if r < 0.30:
             yield gen_nm(rng, tier)
         elif r < 0.62:
-            yield gen_find(rng, tier)
+            yield with_warm(rng, gen_find(rng, tier))
         elif r < 0.76:
             yield gen_interleave(rng, tier)
         elif r < 0.86:
-            yield gen_multi(rng, tier, "contest")
+            yield with_warm(rng, gen_multi(rng, tier, "contest"))
         elif r < 0.90:
-            yield gen_multi(rng, tier, "audit_contest")
+            yield with_warm(rng, gen_multi(rng, tier, "audit_contest"))
         elif r < 0.96:
-            yield gen_audit(rng, tier)
+            yield with_warm(rng, gen_audit(rng, tier))
         else:
             yield gen_raire(rng, tier)
 
